@@ -318,6 +318,10 @@ def match_known(v, known):
                 n0 = int(re.search(r'sizes (\d+)/0\)$', v['what']).group(1))
                 if tf is not None and round(tf * tf * n0, 4) == 0:
                     return k
+        elif m.get('kind') == 'straddling_schedule':
+            # the two results differ ONLY in pairs whose raw similarity and its 4-decimal rounding disagree about the comparison
+            if case.get('entry') == 'join' and case.get('which') in ('jaccard', 'cosine', 'dice') and case.get('straddling_only') is True:
+                return k
         elif m.get('kind') == 'tiny_threshold':
             t = case.get('threshold')
             if isinstance(t, float) and 0 < t < float(m['below']):
